@@ -453,17 +453,24 @@ impl<S: AsyncWrite + Unpin + 'static> futures_util::AsyncWrite for AsyncWriteStr
             debug_assert!(self.write_future.is_none());
             ready!(self.as_mut().poll_close_impl())?;
         }
-        let res = ready!(self.as_mut().poll_flush_impl());
-        self.project().flush_waker.take();
-        Poll::Ready(res.map(|_| ()))
+        loop {
+            let res = ready!(self.as_mut().poll_flush_impl());
+            // A flush that was already in flight may have finished without the bytes written
+            // after it started: flush again until nothing is buffered.
+            if res.is_err() || !self.inner.has_pending_write() {
+                self.project().flush_waker.take();
+                return Poll::Ready(res.map(|_| ()));
+            }
+        }
     }
 
     fn poll_close(mut self: Pin<&mut Self>, cx: &mut Context<'_>) -> Poll<io::Result<()>> {
         replace_waker(self.as_mut().project().close_waker, cx.waker());
         // Avoid shutdown on flush because the inner buffer might be passed to the
         // driver.
-        if self.write_future.is_some() || self.inner.has_pending_write() {
-            debug_assert!(self.shutdown_future.is_none());
+        while self.shutdown_future.is_none()
+            && (self.write_future.is_some() || self.inner.has_pending_write())
+        {
             ready!(self.as_mut().poll_flush_impl())?;
         }
         let res = ready!(self.as_mut().poll_close_impl());
